@@ -599,6 +599,26 @@ theorem body_good {rec : Rec} (hrec : GoodRec rec) (cx : Ctx) (k : Nat) (kind : 
     simp only [body, Option.map_eq_some_iff] at h
     obtain ⟨r0, h0, rfl⟩ := h
     exact (hrec _ _ _ _ _ _ h0).congr rfl rfl
+  | ifApply c acts =>
+    simp only [body] at h
+    split at h
+    · simp only [Option.map_eq_some_iff] at h
+      obtain ⟨r0, h0, rfl⟩ := h
+      have g := (hrec _ _ _ _ _ _ h0).toWeak
+      split
+      · exact guard_req_drop_good (g.congr rfl)
+      · exact guard_req_drop_good g
+    · exact hrec _ _ _ _ _ _ h
+  | control kc c => simp only [body] at h; exact hrec _ _ _ _ _ _ h
+  | applyR acts =>
+    simp only [body] at h
+    split at h
+    · simp only [Option.some.injEq] at h
+      subst h
+      exact Good.dropOnFail ⟨Weak.refl _ _ _ _, fun _ _ => rfl⟩
+    · simp only [Option.some.injEq] at h
+      subst h
+      exact ⟨Weak.refl _ _ _ _, fun _ _ => rfl⟩
 
 end Pegtl
 
@@ -627,9 +647,9 @@ theorem actionOutcome_vetoes (cx : Ctx) (i : Nat) (a : AMode) (act : ActionSpec)
   unfold afterBody
   split
   · rfl
-  · rfl
+  · simp
   · simp only
-    split <;> rfl
+    split <;> simp
 
 /-- `afterBody` reports a local failure only if the body failed, or the body matched and a
     `bool` action vetoed — and in the second case `match()` holds a `required` guard. -/
@@ -660,11 +680,11 @@ theorem guardRestore_req_cur {c : Cursor} {r : Ret} (h : r.res ≠ .ok) :
 theorem guardRestore_optional (c : Cursor) (r : Ret) : guardRestore .optional c r = r := by
   simp [guardRestore]
 
-@[simp] theorem bracket_st (cx : Ctx) (i : Nat) (a : AMode) (m : RMode) (st : St) (r : Ret) :
-    (bracket cx i a m st r).st = r.st := by simp [bracket]
+@[simp] theorem bracket_st (cx : Ctx) (i : Nat) (a : AMode) (m : RMode) (kc : Nat) (st : St) (r : Ret) :
+    (bracket cx i a m kc st r).st = r.st := by simp [bracket]
 
-@[simp] theorem bracket_res (cx : Ctx) (i : Nat) (a : AMode) (m : RMode) (st : St) (r : Ret) :
-    (bracket cx i a m st r).res = r.res := by simp [bracket]
+@[simp] theorem bracket_res (cx : Ctx) (i : Nat) (a : AMode) (m : RMode) (kc : Nat) (st : St) (r : Ret) :
+    (bracket cx i a m kc st r).res = r.res := by simp [bracket]
 
 /-- The match.hpp protocol keeps the invariant: whether the rewinding is done by the rule
     body (no action: `M` is passed on) or by `match()` itself (action present: guard `required`). -/
@@ -677,8 +697,8 @@ theorem nodeCore_good {rec : Rec} (hrec : GoodRec rec) (cx : Ctx) (k i : Nat) (n
     obtain ⟨r0, h0, rfl⟩ := h
     have gb := body_good hrec cx k _ _ _ _ _ _ h0
     refine Good.congr (r := guardRestore (if useGuard a (cx.actOf env i nd) = true then .required else .optional) st.cur
-      (afterBody cx i a (cx.actOf env i nd) env.sd st.cur r0)) ?_ (by simp [guardRestore]; split <;> simp) (by simp)
-    have w : Weak st (afterBody cx i a (cx.actOf env i nd) env.sd st.cur r0) := gb.toWeak.congr (by simp)
+      (afterBody (cx.withCtl env.ctl) i a (cx.actOf env i nd) env.sd st.cur r0)) ?_ (by simp [guardRestore]; split <;> simp) (by simp)
+    have w : Weak st (afterBody (cx.withCtl env.ctl) i a (cx.actOf env i nd) env.sd st.cur r0) := gb.toWeak.congr (by simp)
     cases hug : useGuard a (cx.actOf env i nd) with
     | true => exact guard_good (Or.inl (by simp)) w
     | false =>
@@ -742,6 +762,7 @@ theorem nodeCall_good {rec : Rec} (hrec : GoodRec rec) (cx : Ctx) (k i : Nat) (a
     · simp only [Option.map_eq_some_iff] at h0
       obtain ⟨r1, h1, rfl⟩ := h0
       exact (hrec _ _ _ _ _ _ h1).congr rfl rfl
+    · exact nodeCore_good hrec cx k i nd a m _ st r0 h0
 
 theorem run_good (cx : Ctx) : ∀ n, GoodRec (run cx n) := by
   intro n
